@@ -24,7 +24,9 @@
     writeMatch_discrepancy (a concrete state outside of that invariant on which code and model differ)
   The lemmas `gen_*_unfold`, `loop_unfold`, `wb_loop_cons`, `wb_loop_nil`, `wb_loop2_eq` state the
   syntactic shape of the generated definitions (proved by `rfl`/unfolding); they are the first
-  thing that breaks when the Go source changes.
+  thing that breaks when the Go source changes.  D05 (`shrink`) has no such lemma any more: it is
+  proved by unfolding, splitting every `if` and evaluating every leaf (`okAnd`, `slice_ok_and`,
+  `shift_copy` of GenBufPropsBase) against the closed form `model_shrink_closed` of the model.
   Part of the split of the former LzProofs/GenBufProps.lean (the generated code is emitted per
   topic: LzModel/Generated/CodePBuf.lean, CodeDBuf.lean, CodeSlicePrelude.lean, CodeErrVars.lean),
   so that a construct the translator refuses in decoder_buffer.go does not take the ParserBuffer
@@ -181,29 +183,6 @@ theorem gen_dbuf_read_panic (b : DecoderBuffer) (hr : b.R > b.Data.len) (p : Sli
   rfl
 
 
-/-- the part of `shrink` after the capacity check -/
-def shrinkTail (b : DecoderBuffer) : Res (DecoderBuffer × Int) :=
-  let delta : Int := LZ.Gen.doz (Int.ofNat b.Data.len) b.DecoderConfig.WindowSize
-  let delta : Int := if b.R < delta then b.R else delta
-  if delta = 0 then Res.ok (b, (0 : Int))
-  else
-    Res.bind (Slice.slice b.Data delta (Int.ofNat b.Data.len)) fun t_1 =>
-    let r_2 := Slice.copy b.Data t_1
-    let b : DecoderBuffer := { b with Data := r_2.1 }
-    let k : Int := r_2.2
-    Res.bind (Slice.slice b.Data 0 k) fun t_3 =>
-    let b : DecoderBuffer := { b with Data := t_3 }
-    let b : DecoderBuffer := { b with R := b.R - delta }
-    Res.ok (b, delta)
-
-theorem gen_shrink_unfold (b : DecoderBuffer) (g : Int) :
-    DecoderBuffer_shrink b g =
-      if b.DecoderConfig.BufferSize < Int.ofNat b.Data.cap then
-        if g ≤ Int.ofNat b.Data.cap then
-          Res.ok ({ b with DecoderConfig := { b.DecoderConfig with BufferSize := Int.ofNat b.Data.cap } }, (0 : Int))
-        else shrinkTail { b with DecoderConfig := { b.DecoderConfig with BufferSize := Int.ofNat b.Data.cap } }
-      else shrinkTail b := rfl
-
 def modelShrinkTail (m : DecBuf) : DecBuf × Nat :=
   let delta := Min.min (m.data.length - m.ws) m.r
   if delta = 0 then (m, 0)
@@ -219,73 +198,60 @@ theorem model_shrink_unfold (m : DecBuf) (g : Nat) :
   · simp only [h, decide_true, if_true, true_and]
   · simp only [h, decide_false, if_false, false_and, Bool.false_eq_true]
 
-theorem shrinkTail_spec (b : DecoderBuffer) (h : DBWF b) :
-    ∃ b', shrinkTail b = Res.ok (b', ((modelShrinkTail (ofDB b)).2 : Int)) ∧
-      ofDB b' = (modelShrinkTail (ofDB b)).1 ∧ DBWF b' ∧
-      b'.DecoderConfig = b.DecoderConfig ∧ b'.Off = b.Off := by
-  obtain ⟨hd, hr0, ho0, hw0, hb0⟩ := h
-  have hd' : b.Data.len ≤ b.Data.arr.length := hd
-  unfold shrinkTail modelShrinkTail
-  have hl : (ofDB b).data.length = b.Data.len := data_length hd
-  obtain ⟨r, hrr⟩ : ∃ r : Nat, b.R = (r : Int) := ⟨b.R.toNat, by omega⟩
-  obtain ⟨w, hww⟩ : ∃ w : Nat, b.DecoderConfig.WindowSize = (w : Int) := ⟨b.DecoderConfig.WindowSize.toNat, by omega⟩
-  have hmr : (ofDB b).r = r := by simp only [ofDB]; omega
-  have hmw : (ofDB b).ws = w := by simp only [ofDB]; omega
-  rw [GenProps.gen_doz_toNat]
-  simp only [hl, hmr, hmw, hrr, hww, Int.ofNat_eq_natCast]
-  obtain ⟨d, hdd⟩ : ∃ d : Nat, d = Min.min (b.Data.len - w) r := ⟨_, rfl⟩
-  have hdelta : (if (r : Int) < ((((b.Data.len : Nat) : Int) - (w : Int)).toNat : Int) then (r : Int)
-      else ((((b.Data.len : Nat) : Int) - (w : Int)).toNat : Int)) = (d : Int) := by
-    split <;> omega
-  rw [hdelta, ← hdd]
-  by_cases hz : d = 0
-  · have hz' : (d : Int) = 0 := by omega
-    simp only [hz, hz', if_true]
-    exact ⟨b, rfl, rfl, ⟨hd, hr0, ho0, hw0, hb0⟩, rfl, rfl⟩
-  · have hz' : ¬ (d : Int) = 0 := by omega
-    simp only [hz, hz', if_false]
-    have hdl : d ≤ b.Data.len := by omega
-    rw [slice_ok _ _ _ hdl hd]
-    obtain ⟨hc, s', hs', hdat, hcap, hlen⟩ := shift_down b.Data hd d hdl
-    simp only [bind_ok, hc, hs']
-    refine ⟨_, rfl, ?_, ⟨by show s'.len ≤ s'.arr.length; omega, by show (0:Int) ≤ (r:Int) - (d:Int); omega, ho0, hw0, hb0⟩, rfl, rfl⟩
-    simp only [ofDB, hdat, Slice.cap, hcap]
-    congr 1
-    omega
+/-- the model's `shrink` in closed form: the new `bs` and the number `D` of dropped bytes are
+    described by linear arithmetic, independently of the order of the tests in the code -/
+theorem model_shrink_closed (m : DecBuf) (g : Nat) :
+    ∃ D B : Nat, ((m.bs < m.cap ∧ g ≤ m.cap → D = 0) ∧
+        (¬ (m.bs < m.cap ∧ g ≤ m.cap) → D = Min.min (m.data.length - m.ws) m.r)) ∧
+      ((m.bs < m.cap → B = m.cap) ∧ (¬ m.bs < m.cap → B = m.bs)) ∧
+      DecBuf.shrink m g = ({ m with bs := B, data := m.data.drop D, r := m.r - D }, D) := by
+  refine ⟨if m.bs < m.cap ∧ g ≤ m.cap then 0 else Min.min (m.data.length - m.ws) m.r,
+    if m.bs < m.cap then m.cap else m.bs, ⟨fun h => if_pos h, fun h => if_neg h⟩,
+    ⟨fun h => if_pos h, fun h => if_neg h⟩, ?_⟩
+  rw [model_shrink_unfold]
+  unfold modelShrinkTail
+  by_cases h1 : m.bs < m.cap <;> by_cases h2 : g ≤ m.cap <;>
+    by_cases h0 : Min.min (m.data.length - m.ws) m.r = 0 <;>
+    simp only [h0, h1, h2, and_self, and_true, and_false, false_and, true_and, if_true, if_false,
+      List.drop_zero, Nat.sub_zero]
 
-/-- D05 `shrink(g)` (for every `g`, also negative: the model is called with `g.toNat`) -/
+/-- D05 `shrink(g)` (for every `g`, also negative: the model is called with `g.toNat`).
+    Shape-independent: unfold, split every `if`, in every leaf evaluate the two slice
+    expressions (`slice_ok_and`, `shift_copy`) and compare with the closed form of the model. -/
 theorem gen_dbuf_shrink (b : DecoderBuffer) (h : DBWF b) (g : Int) :
     ∃ b', DecoderBuffer_shrink b g = Res.ok (b', ((DecBuf.shrink (ofDB b) g.toNat).2 : Int)) ∧
       ofDB b' = (DecBuf.shrink (ofDB b) g.toNat).1 ∧ DBWF b' ∧
       b'.DecoderConfig.WindowSize = b.DecoderConfig.WindowSize ∧ b'.Off = b.Off := by
-  have hwf := h
   obtain ⟨hd, hr0, ho0, hw0, hb0⟩ := h
-  rw [gen_shrink_unfold, model_shrink_unfold]
-  simp only [Int.ofNat_eq_natCast, Slice.cap]
-  have hcap : (ofDB b).cap = b.Data.arr.length := rfl
-  have hbs : (ofDB b).bs = b.DecoderConfig.BufferSize.toNat := rfl
-  rw [hcap, hbs]
-  by_cases h1 : b.DecoderConfig.BufferSize < (b.Data.arr.length : Int)
-  · have h1' : b.DecoderConfig.BufferSize.toNat < b.Data.arr.length := by omega
-    simp only [h1, h1', if_true]
-    have hwf1 : DBWF { b with DecoderConfig := { b.DecoderConfig with BufferSize := (b.Data.arr.length : Int) } } :=
-      ⟨hd, hr0, ho0, hw0, by show (0:Int) ≤ (b.Data.arr.length : Int); omega⟩
-    have hof1 : ofDB { b with DecoderConfig := { b.DecoderConfig with BufferSize := (b.Data.arr.length : Int) } }
-        = { ofDB b with bs := b.Data.arr.length } := by
-      simp only [ofDB, Int.toNat_natCast, Slice.cap]
-    by_cases h2 : g ≤ (b.Data.arr.length : Int)
-    · have h2' : g.toNat ≤ b.Data.arr.length := by omega
-      simp only [h2, h2', if_true]
-      exact ⟨_, rfl, hof1, hwf1, rfl, rfl⟩
-    · have h2' : ¬ g.toNat ≤ b.Data.arr.length := by omega
-      simp only [h2, h2', if_false]
-      obtain ⟨b', e1, e2, e3, e4, e5⟩ := shrinkTail_spec _ hwf1
-      rw [hof1] at e1 e2
-      exact ⟨b', e1, e2, e3, by rw [e4], e5⟩
-  · have h1' : ¬ b.DecoderConfig.BufferSize.toNat < b.Data.arr.length := by omega
-    simp only [h1, h1', if_false]
-    obtain ⟨b', e1, e2, e3, e4, e5⟩ := shrinkTail_spec _ hwf
-    exact ⟨b', e1, e2, e3, by rw [e4], e5⟩
+  have hd' : b.Data.len ≤ b.Data.arr.length := hd
+  have hl : b.Data.data.length = b.Data.len := data_length hd
+  obtain ⟨D, B, hD, hB, hm⟩ := model_shrink_closed (ofDB b) g.toNat
+  rw [hm]
+  simp only [ofDB, Slice.cap, hl] at hD hB
+  suffices hs : okAnd (DecoderBuffer_shrink b g) (fun r => r.2 = (D : Int) ∧
+      ofDB r.1 = { ofDB b with bs := B, data := (ofDB b).data.drop D, r := (ofDB b).r - D } ∧ DBWF r.1 ∧
+      r.1.DecoderConfig.WindowSize = b.DecoderConfig.WindowSize ∧ r.1.Off = b.Off) by
+    obtain ⟨⟨b', δ⟩, e, h1, h2⟩ := hs
+    exact ⟨b', by rw [e, ← h1], h2⟩
+  unfold DecoderBuffer_shrink
+  simp only [GenProps.gen_doz_toNat, Int.ofNat_eq_natCast, Slice.cap]
+  repeat' split
+  all_goals
+    (try rw [slice_ok_and _ _ _ (by omega)])
+    (try simp only [bind_ok])
+    (try rw [shift_copy _ hd _ (by omega) _ (by omega)])
+    simp only [bind_ok, okAnd_ok, ofDB, Slice.cap, DecBuf.mk.injEq]
+    refine ⟨?_, ⟨?_, ?_, ?_, ?_, ?_, ?_⟩, ⟨?_, ?_, ?_, ?_, ?_⟩, ?_, ?_⟩
+    all_goals (try dsimp only)
+    all_goals first
+      | trivial
+      | rfl
+      | assumption
+      | omega
+      | exact shifted_data _ hd _ _ (by omega) (by omega)
+      | exact shifted_cap _ hd _ (by omega)
+      | exact shifted_swf _ hd _ (by omega)
+      | exact drop_of_eq_zero _ _ (by omega)
 
 
 theorem model_shrink_delta_le (m : DecBuf) (g : Nat) : (DecBuf.shrink m g).2 ≤ m.data.length := by
